@@ -217,8 +217,8 @@ def eval_pair(case, rng):
         argv = []
         for k, fl in enumerate(flows):
             files[f"in{k}.pcapng"] = scene.capture(scene.stamp(scene.merge([fl], rng, "concat"), rng))
-            argv.append(["-i", f"{{dir}}/in{k}.pcapng", "-o", "{dir}/out.pcapng", "-s", "{dir}/keys.log"])
-        res = runner.run_tlexport(files, argv, child_setup=mon.install)
+            argv.append(["-i", f"{{dir}}/in{k}.pcapng", "-o", f"{{dir}}/out{k}.pcapng", "-s", "{dir}/keys.log"])
+        res = runner.run_tlexport(files, argv, child_setup=mon.install, outnames=tuple(f"out{k}.pcapng" for k in range(len(flows)))[::-1])
     out = {"cls": ["pair", suites.VNAME[v], p["mode"], "related" if related else "unrelated-" + mix, mode, len(flows)],
            "tags": [f"pair:{suites.VNAME[v]}:{'resumption' if related else 'unrelated-' + mix}:{mode}"],
            "sample": {"case": case["id"], "suite": suites.REGISTRY[code], "version": suites.VNAME[v], "connections": [f.label + " " + f.ep.describe() for f in flows], "mode": mode}}
@@ -229,9 +229,12 @@ def eval_pair(case, rng):
     inits = [e for e in evs_all if e["ev"] == "init"]
     if any(e["ev"] == "monitor-unavailable" for e in evs_all) or (inits and not any(k in inits[-1] for k in ("client_key", "client_application_key"))):
         if mode != "one-capture":
-            return dict(out, v="inconclusive", msg="key monitor unavailable (the output of the last run alone cannot speak for the earlier ones)", nontrivial=False)
-        an = outparse.Analysis(res.out)
-        m2 = [m for fl in flows for m in e2e.check_tls_streams(an, fl.conn, fl.ep, label=fl.label + " ")]
+            if any(o is None for o in res.outs):
+                return dict(out, v="violated", msg="a run() of the sequence wrote no output file", files=files)
+            m2 = [m for fl, o in zip(flows, res.outs[::-1]) for m in e2e.check_tls_streams(outparse.Analysis(o), fl.conn, fl.ep, label=fl.label + " ")]
+        else:
+            an = outparse.Analysis(res.out)
+            m2 = [m for fl in flows for m in e2e.check_tls_streams(an, fl.conn, fl.ep, label=fl.label + " ")]
         out["tags"].append("indirect")
         if m2:
             return dict(out, v="inconclusive", msg="key monitor unavailable and the export is not exact (C04 decides): " + m2[0][:200], nontrivial=False)
